@@ -118,3 +118,30 @@ Definition faithful (e : elem) : bool :=
   | Some acc => (if list_eq_dec Z.eq_dec (rev acc) (true_poly e) then true else false) && (min_shift e =? 0)%Z
   | None => false
   end.
+
+(* ---- mass bounds (for C09b) ---- *)
+(* the isotopes BRAIN's coefficient loop finds, in the order it finds them *)
+Fixpoint found_loop (e : elem) (is_ : list nat) : list iso :=
+  match is_ with
+  | [] => []
+  | i :: rest =>
+      let kz := (Z.of_nat (List.length (isos e)) + Z.of_N (number e) - Z.of_nat i - 1)%Z in
+      if (kz <? 0)%Z then found_loop e rest else
+      match assoc_get (Z.to_N kz) (isos e) with
+      | None => found_loop e rest
+      | Some iso => iso :: found_loop e rest
+      end
+  end.
+Definition found_isos (e : elem) : list iso := found_loop e (seq 0 (Z.to_nat (max_shift e - min_shift e + 1))).
+Definition elem_min_mass (e : elem) : Z :=
+  match map TableModel.mass (found_isos e) with [] => 0%Z | x :: r => fold_left Z.min r x end.
+Definition elem_max_mass (e : elem) : Z :=
+  match map TableModel.mass (found_isos e) with [] => 0%Z | x :: r => fold_left Z.max r x end.
+(* all found isotopes have positive abundance and mass, and the recorded monoisotopic mass is the mass of the lightest
+   isotope found (the one the polynomials are normalised by) *)
+Definition elem_mass_sane (e : elem) : bool :=
+  forallb (fun i => (0 <? TableModel.ab i)%Z && (0 <? TableModel.mass i)%Z) (found_isos e)
+  && match tail_loop e (seq 0 (Z.to_nat (max_shift e - min_shift e + 1))) None with
+     | Some t => (TableModel.mass t =? mam e)%Z
+     | None => false
+     end.
